@@ -426,7 +426,7 @@ func verifH_FinishCli() {
 		}
 	} else {
 		verifCover("finished-by-cancel")
-		verifAssert(ncancel == 1, "C07+C13.exactly-one-cancel-frame")
+		verifAssert(ncancel == 1, "C01+C07+C13.exactly-one-cancel-frame")
 		want := codes.Canceled
 		if deadline {
 			want = codes.DeadlineExceeded
